@@ -30,5 +30,16 @@ CLAIMED["C03"] = dict(
     note="Trusted: the operand roles of the call/import opcodes read off Lib/pickle.py and frozen in CALL_SPEC/IMPORT_SPEC; sa/vm.py.",
 )
 
+CLAIMED["C05"] = dict(
+    technique="per-opcode value-flow summaries (abstract interpretation) checked against a frozen table of the VM's value semantics; container-identity rule for in-place opcodes; ASDL field typing of every AST node built",
+    level="Structural necessary conditions only: every value-building opcode routes its VM operands into the node it builds with the VM's coverage, order and identity (constants carry the argument in a fresh Constant, slice builders take the whole slice in stack order, TUPLEn keep operand order, APPEND(S)/ADDITEMS/SETITEM(S) add exactly their operands); opcodes that mutate a container in the VM keep that very node (or its bound variable) so memoised references stay shared; every AST node is well-formed so unparse prints what was built. Equality of the executed decompilation with the VM's value for every program is a value-level property and is NOT claimed.",
+    note="Trusted: pickletools operand order, Lib/pickle.py value semantics frozen in the table, ast.<Node>.__doc__ ASDL signatures, sa/vm.py. Aliasing through new_variable rebinding (memo keeps the node, stack keeps the Name) is a known incompleteness.",
+)
+CLAIMED["C13"] = dict(
+    technique="effect analysis of observers (who writes which shared object), one-shot-iterator typing of AST fields, cache-atomicity via CFG, set-iteration lint on the decompile/analysis path, import-graph check of the analysis registry",
+    level="Excludes structurally the known sources of non-determinism and observer effects: one-shot iterators in AST fields, writes by opcode handlers to the shared opcode objects, state kept on the singleton analyses or written into inspected nodes, Interpreter/Trace writing into the Pickled they observe, partially filled caches, ordered iteration over sets (hash-seed dependence), shared mutable defaults, import-order dependence of the registry. It does not prove equality of answers across processes as such.",
+    note="Trusted: the enumeration of non-determinism sources is complete for this code base (no threads, no time, no randomness - see C17 for the file-format module); attribute-name based identification of shared objects.",
+)
+
 _NOT_YET = "checker not built yet in this session (planned per DESIGN.md section 3); nothing is claimed until it exists"
 NOT_APPLICABLE = {p: _NOT_YET for p in [f"C{i:02d}" for i in range(1, 20)]}
